@@ -819,6 +819,12 @@ func (w *World) Restart(newNow uint32, note string) (ok bool, startErr error, pa
 	return w.S != nil, err, panicked
 }
 
+// SetOffset moves the server's report window through the test hook.
+func (w *World) SetOffset(o uint32) {
+	w.S.VerifSetWindowOffset(o)
+	w.hop(fmt.Sprintf("HSetOffset %d", o), map[string]interface{}{"op": "set-window-offset", "offset": o})
+}
+
 // SnapHop records a full snapshot comparison point.
 func (w *World) SnapHop() server.VerifSnap {
 	s, sn := w.Snapshot()
